@@ -65,12 +65,12 @@ def run(tier: str, seed: int, replay=None) -> int:
     plan = {
         "rule": RULE, "assumptions": ASSUMPTIONS,
         # (config, max replayed states (0 = all), states per model build (0 = all), label)
-        "design": ([("MPSLifeMC_arch_quick", 270, 3, "arch"), ("MPSLifeMC_tuples_quick", 160, 1, "tuples"),
-                    ("MPSLifeMC_all_quick", 240, 30, "allwinners"), ("MPSLifeMC_d1_quick", 150, 3, "arch1d"),
-                    ("MPSLifeMC_reuse_quick", 90, 3, "reuse", "F66"), ("MPSLifeMC_opts_quick", 180, 3, "convopts"),
-                    ("MPSLifeMC_opts1d_quick", 60, 3, "convopts1d"), ("MPSLifeMC_modes_quick", 100, 50, "modes"),
-                    ("MPSLifeMC_export_quick", 130, 50, "exports"),
-                    ("MPSLifeMC_fork_quick", 90, 30, "fork")] if q else
+        "design": ([("MPSLifeMC_arch_quick", 210, 3, "arch"), ("MPSLifeMC_tuples_quick", 120, 1, "tuples"),
+                    ("MPSLifeMC_all_quick", 180, 30, "allwinners"), ("MPSLifeMC_d1_quick", 110, 3, "arch1d"),
+                    ("MPSLifeMC_reuse_quick", 90, 3, "reuse", "F66"), ("MPSLifeMC_opts_quick", 140, 3, "convopts"),
+                    ("MPSLifeMC_opts1d_quick", 60, 3, "convopts1d"), ("MPSLifeMC_modes_quick", 80, 40, "modes"),
+                    ("MPSLifeMC_export_quick", 100, 50, "exports"),
+                    ("MPSLifeMC_fork_quick", 70, 30, "fork")] if q else
                    [("MPSLifeMC_arch_quick", 0, 0, "arch"), ("MPSLifeMC_arch_thorough", 2400, 3, "arch4"),
                     ("MPSLifeMC_arch5_thorough", 1200, 3, "arch5"), ("MPSLifeMC_tuples_thorough", 2000, 2, "tuples"),
                     ("MPSLifeMC_all_thorough", 2500, 40, "allwinners"), ("MPSLifeMC_few_thorough", 1200, 3, "few"),
@@ -81,7 +81,7 @@ def run(tier: str, seed: int, replay=None) -> int:
                     ("MPSLifeMC_export_thorough", 2500, 150, "exports"),
                     ("MPSLifeMC_fork_thorough", 1200, 100, "fork")]),
         "sanity": ["MPSLifeMC_nokf40", "MPSLifeMC_noreuse", "MPSLifeMC_cachefwd", "MPSLifeMC_memoexport", "MPSLifeMC_sharedfork"],
-        "n_random": 50 if q else 600, "random_sels": 2 if q else 3, "max_nodes": 9 if q else 12,
+        "n_random": 40 if q else 600, "random_sels": 2 if q else 3, "max_nodes": 9 if q else 12,
         "procs": 8, "tlc_workers": 8,
     }
     return mps_gen.run_check("C02", tier, seed, replay, plan)
